@@ -158,7 +158,27 @@ func runSubject(h *History, cfg config.Blockchain, l Local, steps []Step) (*subj
 	}
 	srh := cfg.StateRootInHeader
 	gcSeen := 0
+	gcPending := false
+	gcLine := func() { // the GC calls that followed the previous flush (they are over by now)
+		if !l.RUB || !gcPending {
+			return
+		}
+		gcPending = false
+		calls := sr.st.GCCalls()
+		var sb strings.Builder
+		for _, c := range calls[gcSeen:] {
+			fmt.Fprintf(&sb, "%02x", c)
+		}
+		gcSeen = len(calls)
+		s := sb.String()
+		if s == "" {
+			s = "-"
+		}
+		sr.lines = append(sr.lines, [2]string{"gc", s})
+	}
 	flushLine := func() {
+		gcLine()
+		note("gc")
 		before := len(sr.batchInfo)
 		if l.RUB {
 			// wait for the timer-driven persist (and the GC that follows it in the same goroutine)
@@ -191,19 +211,7 @@ func runSubject(h *History, cfg config.Blockchain, l Local, steps []Step) (*subj
 			sr.timerHit = true // a timer flush split the batch: the case's tie lines are not comparable
 			sr.lines = append(sr.lines, [2]string{"flush", strings.Join(puts, " || ")})
 		}
-		if l.RUB {
-			calls := sr.st.GCCalls()
-			var sb strings.Builder
-			for _, c := range calls[gcSeen:] {
-				fmt.Fprintf(&sb, "%02x", c)
-			}
-			gcSeen = len(calls)
-			s := sb.String()
-			if s == "" {
-				s = "-"
-			}
-			sr.lines = append(sr.lines, [2]string{"gc", s})
-		}
+		gcPending = added > 0
 	}
 	for _, s := range steps {
 		switch s.Kind {
@@ -235,6 +243,11 @@ func runSubject(h *History, cfg config.Blockchain, l Local, steps []Step) (*subj
 		}
 	}
 	// a clean stop flushes what is left
+	if l.RUB {
+		time.Sleep(60 * time.Millisecond)
+	}
+	gcLine()
+	note("gc")
 	closed = true
 	before := sr.st.NumBatches()
 	bc.Close()
